@@ -114,6 +114,19 @@ Proof.
 Qed.
 Print Assumptions C14_one_round_after_stop.
 
+(* the map always terminates: the fuel of `run` suffices for every schedule,
+   so `final` is never OutOfFuel and the theorems above speak about the value
+   the caller actually receives *)
+Theorem C14_run_terminates :
+  forall c sched e0, 1 <= workers c ->
+    s_pc (run c sched e0) = PDone /\ final c (run c sched e0) <> OutOfFuel.
+Proof.
+  intros c sched e0 HW. pose proof (run_terminates c HW sched e0) as H.
+  split; [exact H|]. unfold final. rewrite H.
+  destruct (s_errors _) as [| [j e] l]; [discriminate|]. destruct (fail_fast c); discriminate.
+Qed.
+Print Assumptions C14_run_terminates.
+
 (* serial_map gives the same guarantees: each value reduced at most once and
    in order, errors kept, results positional, nothing skipped unless the map
    was stopped *)
